@@ -101,6 +101,38 @@ void h_accum_to(void) {
   VACUITY_CANARY();
 }
 
+// ---- ghost observers for the a*a / b*b products (the two guarded hooks of q120_arithmetic_ref.c, -DSPQLIOS_VERIF): the bodies
+// below are verification state only.  ACCW is the exact sum over the terms of lane LANE of p0 + (p1+p2)*2^32 + p3*2^64 (for
+// a*a: of t = p0); GXV, GYV are the operands of the ghost term GTI; GF* the accumulators the recombination consumed.
+typedef unsigned __CPROVER_bitvector[192] wide_t;
+GHOST wide_t ACCW;
+GHOST uint64_t GTI;
+GHOST uint64_t GF1;
+GHOST uint64_t GF2;
+GHOST uint64_t GF3;
+GHOST uint64_t GF4;
+#ifndef TERM_KIND
+#define TERM_KIND 0 /* 0: a*a (one product x*y), 1: b*b (four partial products of the 32-bit halves) */
+#endif
+GHOST uint64_t GXV;
+GHOST uint64_t GYV;
+void spqlios_verif_q120_term(uint64_t i, uint64_t j, uint64_t x, uint64_t y, uint64_t p0, uint64_t p1, uint64_t p2, uint64_t p3) {
+  if (j == LANE) {
+    // the reported partial products are those of the reported operands (stated where the operands are the very expressions the code multiplied)
+#if TERM_KIND == 0
+    __CPROVER_assert(p0 == x * y && p1 == 0 && p2 == 0 && p3 == 0, "a*a: the term is the product of its operands");
+#else
+    __CPROVER_assert(p0 == (x & 0xFFFFFFFFull) * (y & 0xFFFFFFFFull) && p1 == (x & 0xFFFFFFFFull) * (y >> 32) && p2 == (x >> 32) * (y & 0xFFFFFFFFull) && p3 == (x >> 32) * (y >> 32), "b*b: the four partial products are xl*yl, xl*yh, xh*yl, xh*yh of the operands");
+#endif
+    ACCW += (wide_t)p0 + (((wide_t)p1 + (wide_t)p2) << 32) + (((wide_t)p3) << 64);
+    if (i == 4 * GTI) { GXV = x; GYV = y; }
+  }
+}
+void spqlios_verif_q120_final(uint64_t j, uint64_t s1, uint64_t s2, uint64_t s3, uint64_t s4) {
+  if (j == LANE) { GF1 = s1; GF2 = s2; GF3 = s3; GF4 = s4; }
+}
+#define GHOSTS_ASSIGNED ACCW, GXV, GYV, GF1, GF2, GF3, GF4
+
 // ---- a*a product (reference): no 64-bit wrap for every ell <= 10000 (C04 range invariant; no ghost sum: the step is inline
 // and the functional statement would need a repository hook).  acc1 collects the H low bits of each product, acc2 the 64-H
 // high bits; the result acc1 + acc2*h_pow_red stays below 2^64.  H and h_pow_red < q come from the real constructor (S5).
@@ -114,12 +146,16 @@ void baa_ref__c(q120_mat1col_product_baa_precomp* precomp, const uint64_t ell, q
 __CPROVER_requires(ell <= MAX_ELL && GK < 4)
 __CPROVER_requires(__CPROVER_is_fresh(precomp, sizeof(*precomp)) && precomp->h == BAA_H && precomp->h_pow_red[0] < Q1 && precomp->h_pow_red[1] < Q2 && precomp->h_pow_red[2] < Q3 && precomp->h_pow_red[3] < Q4)
 __CPROVER_requires(__CPROVER_is_fresh(res, 32) && __CPROVER_is_fresh(x, ell * 32) && __CPROVER_is_fresh(y, ell * 32))
-__CPROVER_assigns(__CPROVER_object_upto(res, 32))
+__CPROVER_requires(GK == LANE && ACCW == 0 && GTI < ell)
+__CPROVER_assigns(__CPROVER_object_upto(res, 32), GHOSTS_ASSIGNED)
 __CPROVER_ensures((u128)((const uint64_t*)res)[GK] <= (u128)MAX_ELL * BAA_LO + (u128)MAX_ELL * BAA_HI * (u128)Q1) /*@baa_result_below_2_64_no_wrap:C04*/
+__CPROVER_ensures((wide_t)GF1 + (((wide_t)GF2) << BAA_H) == ACCW) /*@baa_accumulators_hold_the_exact_sum_of_the_products:C10,C04*/
+__CPROVER_ensures(((const uint64_t*)res)[LANE] == GF1 + GF2 * precomp->h_pow_red[LANE]) /*@baa_result_is_acc1_plus_acc2_times_2h_mod_q:C10*/
+__CPROVER_ensures(GXV == ((const uint64_t*)x)[4 * GTI + LANE] && GYV == ((const uint64_t*)y)[4 * GTI + LANE]) /*@baa_term_i_is_formed_from_x_i_and_y_i:C10*/
 ;
 void h_baa_ref(void) {
   q120_mat1col_product_baa_precomp* p; uint64_t ell; q120b* r; const q120a *x, *y;
-  GK = nondet_u64();
+  GK = nondet_u64(); ACCW = 0; GTI = nondet_u64();
   q120_vec_mat1col_product_baa_ref(p, ell, r, x, y);
   VACUITY_CANARY();
 }
@@ -132,6 +168,9 @@ void h_baa_ref(void) {
 #define BBB_H 24
 #endif
 void q120_vec_mat1col_product_bbb_ref(q120_mat1col_product_bbb_precomp* precomp, const uint64_t ell, q120b* const res, const q120b* const x, const q120b* const y);
+#define BBB_M2 ((((uint64_t)1) << BBB_H) - 1)
+#define XB (((const uint64_t*)x)[4 * GTI + LANE])
+#define YB (((const uint64_t*)y)[4 * GTI + LANE])
 #define BBB_TAB_OK(f) (precomp->f[0] < Q1 && precomp->f[1] < Q2 && precomp->f[2] < Q3 && precomp->f[3] < Q4)
 void bbb_ref__c(q120_mat1col_product_bbb_precomp* precomp, const uint64_t ell, q120b* const res, const q120b* const x, const q120b* const y)
 __CPROVER_requires(ell <= MAX_ELL && GK < 4)
@@ -139,12 +178,16 @@ __CPROVER_requires(__CPROVER_is_fresh(precomp, sizeof(*precomp)) && precomp->h =
 __CPROVER_requires(precomp->s1h_pow_red[0] == ((uint64_t)1 << BBB_H) && precomp->s1h_pow_red[1] == ((uint64_t)1 << BBB_H) && precomp->s1h_pow_red[2] == ((uint64_t)1 << BBB_H) && precomp->s1h_pow_red[3] == ((uint64_t)1 << BBB_H))
 __CPROVER_requires(BBB_TAB_OK(s2l_pow_red) && BBB_TAB_OK(s2h_pow_red) && BBB_TAB_OK(s3l_pow_red) && BBB_TAB_OK(s3h_pow_red) && BBB_TAB_OK(s4l_pow_red) && BBB_TAB_OK(s4h_pow_red))
 __CPROVER_requires(__CPROVER_is_fresh(res, 32) && __CPROVER_is_fresh(x, ell * 32) && __CPROVER_is_fresh(y, ell * 32))
-__CPROVER_assigns(__CPROVER_object_upto(res, 32))
-__CPROVER_ensures(ell == 0 ==> ((const uint64_t*)res)[GK] == 0) /*@bbb_empty_product_is_zero:C10*/
+__CPROVER_requires(GK == LANE && ACCW == 0 && GTI < ell)
+__CPROVER_assigns(__CPROVER_object_upto(res, 32), GHOSTS_ASSIGNED)
+__CPROVER_ensures((wide_t)GF1 + (((wide_t)GF2) << 32) + (((wide_t)GF3) << 64) + (((wide_t)GF4) << 96) == ACCW) /*@bbb_accumulators_hold_the_exact_sum_of_the_partial_products:C10,C04*/
+__CPROVER_ensures(((const uint64_t*)res)[LANE] == (GF1 & BBB_M2) + (GF1 >> BBB_H) * precomp->s1h_pow_red[LANE] + (GF2 & BBB_M2) * precomp->s2l_pow_red[LANE] + (GF2 >> BBB_H) * precomp->s2h_pow_red[LANE]
+                  + (GF3 & BBB_M2) * precomp->s3l_pow_red[LANE] + (GF3 >> BBB_H) * precomp->s3h_pow_red[LANE] + (GF4 & BBB_M2) * precomp->s4l_pow_red[LANE] + (GF4 >> BBB_H) * precomp->s4h_pow_red[LANE]) /*@bbb_result_is_the_recombination_of_s1_to_s4:C10*/
+__CPROVER_ensures(GXV == XB && GYV == YB) /*@bbb_term_i_partial_products_are_those_of_x_i_and_y_i:C10*/
 ;
 void h_bbb_ref(void) {
   q120_mat1col_product_bbb_precomp* p; uint64_t ell; q120b* r; const q120b *x, *y;
-  GK = nondet_u64();
+  GK = nondet_u64(); ACCW = 0; GTI = nondet_u64();
   q120_vec_mat1col_product_bbb_ref(p, ell, r, x, y);
   VACUITY_CANARY();
 }
